@@ -16,7 +16,9 @@ ENV.pop("RUSTUP_TOOLCHAIN", None)
 
 SERVICE_FLAGS = ["-Z", "restrict-vtable",
                  "--no-default-checks", "--no-assertion-reach-checks"]
-SERVICE_CBMC = ["--max-field-sensitivity-array-size", "512", "--slice-formula"]
+# --no-default-checks also switches Kani's unwinding checks off; they are re-enabled at the CBMC
+# level so that a too-small unwind bound is an error, never a silent truncation.
+SERVICE_CBMC = ["--max-field-sensitivity-array-size", "512", "--slice-formula", "--unwinding-assertions"]
 
 
 def log(*a):
